@@ -19,14 +19,17 @@ static inline void myth_loop_barrier() {
 //Memory barriers by x86 fence instructions
 //Guarantees successive reads to be executed after this
 static inline void myth_rbarrier() {
+  MYTH_VERIF_FENCE(mythv_f_read, 0);
   asm volatile("lfence" ::: "memory");
 }
 //Guarantees former writes to be executed before this
 static inline void myth_wbarrier() {
+  MYTH_VERIF_FENCE(mythv_f_write, 0);
   asm volatile("sfence" ::: "memory");
 }
 //rbarrier+wbarrier
 static inline void myth_rwbarrier() {
+  MYTH_VERIF_FENCE(mythv_f_full, 1);
   asm volatile("mfence" ::: "memory");
 }
 
@@ -35,10 +38,12 @@ static inline void myth_rwbarrier() {
 //Guarantees successive reads to be executed after this
 static inline void myth_rbarrier() {
   int x=0, y=0;
+  MYTH_VERIF_FENCE(mythv_f_read, 1); /* xchg with memory is a full fence */
   asm volatile("xchgl %0,%1":"=r"(x):"m"(y),"0"(x):"memory");
 }
 //Guarantees former writes to be executed before this
 static inline void myth_wbarrier() {
+  MYTH_VERIF_FENCE(mythv_f_write, 0);
   asm volatile("":::"memory");
 }
 //rbarrier+wbarrier
@@ -49,10 +54,12 @@ static inline void myth_rwbarrier() {
 #elif MYTH_BARRIER == MYTH_BARRIER_CILK_WEAK
 //R->R orderings are guaranteed by x86[_64] architecture
 static inline void myth_rbarrier() {
+  MYTH_VERIF_FENCE(mythv_f_read, 0);
   asm volatile("":::"memory");
 }
 //W->W orderings are guaranteed by x86[_64] architecture
 static inline void myth_wbarrier() {
+  MYTH_VERIF_FENCE(mythv_f_write, 0);
   asm volatile("":::"memory");
 }
 //R->W orderings are NOT guaranteed. Need to serialize by atomic or fence insns
@@ -60,18 +67,22 @@ static inline void myth_wbarrier() {
 //may-be-used-before-defined warning by icc
 static inline void myth_rwbarrier() {
   int x,y;
+  MYTH_VERIF_FENCE(mythv_f_full, 1);
   asm volatile("xchgl %0,%1":"=r"(x),"=m"(y)::"memory");
 }
 //#define myth_rwbarrier() asm volatile("mfence":::"memory")
 #elif MYTH_BARRIER == MYTH_BARRIER_INTRINSIC
 
 static inline void myth_rbarrier() {
+  MYTH_VERIF_FENCE(mythv_f_read, 1);
   __sync_synchronize();
 }
 static inline void myth_wbarrier() {
+  MYTH_VERIF_FENCE(mythv_f_write, 1);
   __sync_synchronize();
 }
 static inline void myth_rwbarrier() {
+  MYTH_VERIF_FENCE(mythv_f_full, 1);
   __sync_synchronize();
 }
 
